@@ -109,8 +109,9 @@ def realness(ctx, R="R-C07-realness"):
                       "Fbank: analytic banks invert the full response with ifft (complex), real banks the half response with irfft(n=width) (real)",
                       "Fbank impulse response is %s (analytic) / %s (real); is_real returns %s" % (s_t[:80], s_f[:80], real_expr))
         else:
-            allocs = [n for n in f.body_nodes() if isinstance(n, ast.Assign) and astq.is_name(n.targets[0], "res") and isinstance(n.value, ast.Call)]
-            ok = len(allocs) == 1 and astq.text(astq.kw(allocs[0].value, "dtype")) == "np.complex128" and real_expr == "False"
+            allocs = [n for n in f.body_nodes() if isinstance(n, ast.Assign) and astq.is_name(n.targets[0], "res") and isinstance(n.value, ast.Call)
+                      and (prog.qualify(f.module, n.value.func, f) or "") in ("numpy.zeros", "numpy.empty", "numpy.ones", "numpy.full", "numpy.zeros_like", "numpy.empty_like")]
+            ok = len(allocs) >= 1 and all(astq.text(astq.kw(a_.value, "dtype")) in ("np.complex128", "numpy.complex128", "complex") for a_ in allocs) and real_expr == "False"
             ctx.check(ok, R, f, allocs[0] if allocs else MISSING(f.node), "%s: the impulse response is always complex128 and is_real is constantly False" % name,
                       "%s impulse response dtype %s vs is_real %s" % (name, astq.text(astq.kw(allocs[0].value, "dtype")) if allocs else None, real_expr))
         zp = prog.own_method(c, "is_zero_phase")
